@@ -17,6 +17,9 @@ VARIABLES l, viol
 vars == <<l, viol>>
 Init == l = 1 /\ viol = {}
 Flag(cond, name) == IF cond THEN {} ELSE {<<l, name>>}
+\* the case analysis of the AEAD / DH axioms (Rfc.tla): expectations are recomputed here from the recorded case,
+\* not taken from the harness
+R == INSTANCE Rfc WITH kind <- "trace", c <- [none |-> 0]
 
 Checks(e) ==
   CASE e.ev = "ffi" ->
@@ -35,13 +38,15 @@ Checks(e) ==
     [] e.ev = "aead" ->
          Flag(e.res = "ok", "C19_aead_panic")
          \cup Flag(e.res # "ok" \/ e.len_ok, "C19_aead_ciphertext_length")
-         \cup Flag(e.res # "ok" \/ (e.opened = e.expect_opens), "C19_aead_open_verdict_differs_from_axiom")
+         \cup Flag(e.expect_opens = R!AeadOpens(e.c.change, e.c.adlen), "TOOL_aead_expectation")
+         \cup Flag(e.res # "ok" \/ (e.opened = R!AeadOpens(e.c.change, e.c.adlen)), "C19_aead_open_verdict_differs_from_axiom")
          \cup Flag(e.res # "ok" \/ (e.opened => e.same), "C19_aead_open_does_not_invert_seal")
     [] e.ev = "dh" ->
          Flag(e.res = "ok", "C19_dh_panic")
          \cup Flag(e.res # "ok" \/ e.derive_is_base_mult, "C19_public_key_derivation_is_not_base_point_multiplication")
          \cup Flag(e.res # "ok" \/ e.symmetric, "C19_dh_not_symmetric")
-         \cup Flag(e.res # "ok" \/ (e.expect_fail => e.failed), "C19_dh_accepts_low_order_point")
+         \cup Flag(e.expect_fail = (e.c.point = "loworder"), "TOOL_dh_expectation")
+         \cup Flag(e.res # "ok" \/ (e.c.point \in {"loworder", "noncanonical"} => e.failed), "C19_dh_accepts_low_order_point")
          \cup Flag(e.res # "ok" \/ e.equiv, "C19_dh_point_not_reduced_or_masked_as_rfc7748_requires")
          \cup Flag(e.res # "ok" \/ e.wrappers, "C19_key_type_methods_differ_from_the_primitive_functions")
     [] e.ev = "erase" ->
